@@ -2,6 +2,8 @@
 
 from __future__ import annotations
 
+from typing import Any
+
 from ..bfs import APIS, CtxCheck
 from ..ctxuniverse import KEYS, LOOKUPS, Universe
 
@@ -48,6 +50,143 @@ class C02(CtxCheck):
                 h.append(child)
                 out.append(h)
         return out
+
+    # ---- component family: contexts created from inside prepare()/start() of a starting component -----------
+    def units(self, tier: str, seed: int) -> list:
+        comp = [{"comp": {"where": w, "nest": n, "order": o}} for w in ("root.prepare", "a.prepare", "a.start", "root.start", "g.start")
+                for n in (False, True) for o in ("ag", "ga")]
+        return super().units(tier, seed) + comp
+
+    def work(self, unit: dict, tier: str) -> dict:
+        if "comp" not in unit:
+            return super().work(unit, tier)
+        from ..explore import Chooser, new_summary, reset_determinism, run_main_asyncio
+        from ..vloop import Env
+
+        env = Env(Chooser([]), 0)
+        reset_determinism(0)
+        s = new_summary()
+        run_main_asyncio(env, self.comp_main, env, unit["comp"])
+        s["evaluations"] = s["transitions"] = s["states"] = s["distinct"] = s["nontrivial"] = 1
+        s["outcomes"] = {"done": 1}
+        if env.fails:
+            s["violations"].append({"keys": sorted({f[0] for f in env.fails}), "fails": [list(f) for f in env.fails[:5]], "program": unit,
+                                    "choices": [], "trace": [], "outcome": "done"})
+            s["keyhist"] = {"visible": 1}
+        return s
+
+    def replay(self, rec: dict) -> Any:
+        if "comp" in rec.get("program", {}):
+            s = self.work(rec["program"], "quick")
+            for v in s["violations"]:
+                for f in v["fails"]:
+                    print("FAIL", f[0], "-", f[1])
+            if s["violations"]:
+                print(f"VIOLATION property=C02 replay={rec.get('_path', '')}")
+                return 1
+            print("no violation on this tree")
+            return 0
+        return super().replay(rec)
+
+    async def comp_main(self, env: Any, p: dict) -> None:
+        """A component tree root(a, g) publishes resources while it starts; at the point named by ``where`` a Context() is
+        created from inside the component method (implicit parent) - optionally from inside another entered context - and must be
+        a snapshot of the *surrounding* context at that moment, through every lookup API."""
+        import asphalt.core as ac
+        from asphalt.core import Component, Context, start_component
+
+        from ..ctxuniverse import A, B, injected
+
+        labels: dict[int, str] = {}
+
+        def mk(cls: type, label: str) -> Any:
+            v = cls(label)
+            labels[id(v)] = label
+            return v
+
+        outer: dict[str, Any] = {}
+
+        async def probe(where: str) -> None:
+            if p["where"] != where:
+                return
+            surrounding = outer["ctx"]
+            expected = {(t, n): labels.get(id(v)) for t, T in (("A", A), ("B", B)) for n, v in surrounding.get_resources(T).items()}
+
+            async def sweep_child(exp_parent: Any) -> None:
+                child = Context()
+                if child.parent is not exp_parent:
+                    env.fail("visible", f"{where}: Context() created inside the component has parent {child.parent!r}, expected "
+                                        f"{'the surrounding context' if exp_parent is surrounding else 'the context it was created in'}")
+                async with child:
+                    # something published later must not become visible in the child
+                    surrounding.add_resource(mk(A, "late:" + where), "late")
+                    for tname, T in (("A", A), ("B", B)):
+                        for name in ("default", "x", "pre", "late", "fsync"):
+                            exp = expected.get((tname, name))
+                            if name == "fsync" and tname == "B":
+                                continue
+                            for api in APIS:
+                                try:
+                                    if api == "nowait":
+                                        r = child.get_resource_nowait(T, name, optional=True)
+                                    elif api == "async":
+                                        r = await child.get_resource(T, name, optional=True)
+                                    elif api == "s_nowait":
+                                        r = ac.get_resource_nowait(T, name, optional=True)
+                                    elif api == "s_async":
+                                        r = await ac.get_resource(T, name, optional=True)
+                                    elif api == "inj_sync":
+                                        r = injected(tname, name, True, False)()
+                                    else:
+                                        r = await injected(tname, name, True, True)()
+                                except BaseException as e:  # noqa: BLE001
+                                    r = e
+                                got = labels.get(id(r)) if r is not None and not isinstance(r, BaseException) else r
+                                if got != exp:
+                                    env.fail("visible", f"{where}: {api}({tname}, {name!r}) in a context created inside the component returned {got!r}; "
+                                                        f"the surrounding context had {exp!r} when the child was created")
+                    got_all = {(t, n): labels.get(id(v)) for t, T in (("A", A), ("B", B)) for n, v in child.get_resources(T).items()}
+                    if got_all != expected:
+                        env.fail("visible", f"{where}: get_resources in the child {got_all} != snapshot of the surrounding context {expected}")
+
+            if p["nest"]:
+                async with Context() as mid:
+                    if mid.parent is not surrounding:
+                        env.fail("visible", f"{where}: Context() created inside the component has parent {mid.parent!r}, expected the surrounding context")
+                    await sweep_child(mid)
+            else:
+                await sweep_child(surrounding)
+
+        class Leaf(Component):
+            def __init__(self, tag: str = "") -> None:
+                self.tag = tag
+
+            async def prepare(self) -> None:
+                ac.add_resource(mk(A, f"{self.tag}:prepare"), f"{self.tag}p")
+                await probe(f"{self.tag}.prepare")
+
+            async def start(self) -> None:
+                ac.add_resource(mk(A, f"{self.tag}:start"), f"{self.tag}s")
+                await probe(f"{self.tag}.start")
+
+        class Root(Component):
+            def __init__(self) -> None:
+                for alias in p["order"]:
+                    self.add_component(alias, type=Leaf, tag=alias)
+
+            async def prepare(self) -> None:
+                ac.add_resource(mk(A, "root:prepare"), "default")
+                ac.add_resource(mk(B, "root:prepare:B"), "x")
+                await probe("root.prepare")
+
+            async def start(self) -> None:
+                ac.add_resource(mk(A, "root:start"), "x")
+                await probe("root.start")
+
+        async with Context() as ctx:
+            outer["ctx"] = ctx
+            ctx.add_resource(mk(A, "pre"), "pre")
+            await start_component(Root, {}, timeout=None)
 
     def adds(self, idx: int, keys=("Ad", "Bd", "Ax", "ABd")) -> list[tuple]:
         return [("op", idx, ("add", k, False, f"v:c{idx}:{k}", "m")) for k in keys]
